@@ -14,20 +14,20 @@ let int_of_nat n = let rec go acc = function O -> acc | S m -> go (acc + 1) m in
 
 (* arbitrary-size numbers as hex strings (most significant digit first) *)
 let hexval c = match c with
-  | '0'..'9' -> Char.code c - 48 | 'a'..'f' -> Char.code c - 87 | 'A'..'F' -> Char.code c - 55
+  | '0'..'9' -> Stdlib.Char.code c - 48 | 'a'..'f' -> Stdlib.Char.code c - 87 | 'A'..'F' -> Stdlib.Char.code c - 55
   | _ -> failwith "hexval"
-let n_of_hex (s : string) : n =
+let n_of_hex s : n =
   (* build the positive from the bit string, least significant bit outermost *)
   let bits = ref [] in  (* msb first *)
-  String.iter (fun c -> let v = hexval c in
+  Stdlib.String.iter (fun c -> let v = hexval c in
     bits := (v land 1 = 1) :: (v land 2 = 2) :: (v land 4 = 4) :: (v land 8 = 8) :: !bits) s;
   (* !bits is lsb first now (we consed in order msb-digit first, each digit pushed msb..lsb reversed) *)
   let rec strip = function false :: r -> strip r | l -> l in
-  let msb_first = strip (List.rev !bits) in
+  let msb_first = strip (Stdlib.List.rev !bits) in
   match msb_first with
   | [] -> N0
-  | _ :: rest -> Npos (List.fold_left (fun p b -> if b then XI p else XO p) XH rest)
-let hex_of_n (x : n) : string =
+  | _ :: rest -> Npos (Stdlib.List.fold_left (fun p b -> if b then XI p else XO p) XH rest)
+let hex_of_n (x : n) =
   match x with
   | N0 -> "0"
   | Npos p ->
@@ -36,34 +36,34 @@ let hex_of_n (x : n) : string =
     let rec collect p = match p with XH -> [true] | XO q -> false :: collect q | XI q -> true :: collect q in
     let lsb_first = collect p in
     let _ = bits in
-    let buf = Buffer.create 16 in
+    let buf = Stdlib.Buffer.create 16 in
     let rec go l acc = match l with
       | [] -> acc
-      | a :: b :: c :: d :: r -> go r ((Bool.to_int a + 2 * Bool.to_int b + 4 * Bool.to_int c + 8 * Bool.to_int d) :: acc)
+      | a :: b :: c :: d :: r -> go r ((Stdlib.Bool.to_int a + 2 * Stdlib.Bool.to_int b + 4 * Stdlib.Bool.to_int c + 8 * Stdlib.Bool.to_int d) :: acc)
       | l -> let l4 = l @ [false; false; false] in
-        (match l4 with a :: b :: c :: d :: _ -> (Bool.to_int a + 2 * Bool.to_int b + 4 * Bool.to_int c + 8 * Bool.to_int d) :: acc | _ -> acc) in
-    List.iter (fun v -> Buffer.add_char buf "0123456789abcdef".[v]) (go lsb_first []);
-    Buffer.contents buf
-let z_of_hex s = if String.length s > 0 && s.[0] = '-' then
-    (match n_of_hex (String.sub s 1 (String.length s - 1)) with N0 -> Z0 | Npos p -> Zneg p)
+        (match l4 with a :: b :: c :: d :: _ -> (Stdlib.Bool.to_int a + 2 * Stdlib.Bool.to_int b + 4 * Stdlib.Bool.to_int c + 8 * Stdlib.Bool.to_int d) :: acc | _ -> acc) in
+    Stdlib.List.iter (fun v -> Stdlib.Buffer.add_char buf "0123456789abcdef".[v]) (go lsb_first []);
+    Stdlib.Buffer.contents buf
+let z_of_hex s = if Stdlib.String.length s > 0 && s.[0] = '-' then
+    (match n_of_hex (Stdlib.String.sub s 1 (Stdlib.String.length s - 1)) with N0 -> Z0 | Npos p -> Zneg p)
   else (match n_of_hex s with N0 -> Z0 | Npos p -> Zpos p)
 let hex_of_z = function Z0 -> "0" | Zpos p -> hex_of_n (Npos p) | Zneg p -> "-" ^ hex_of_n (Npos p)
 
 (* byte strings: hex text <-> list of N (each < 256); "-" denotes the empty string *)
-let byte_table = Array.init 256 n_of_int
-let bytes_of_hex (s : string) : n list =
+let byte_table = Stdlib.Array.init 256 n_of_int
+let bytes_of_hex s : n list =
   if s = "-" then [] else begin
-    let l = String.length s / 2 in
+    let l = Stdlib.String.length s / 2 in
     let rec go i acc = if i < 0 then acc else go (i - 1) (byte_table.(16 * hexval s.[2*i] + hexval s.[2*i+1]) :: acc) in
     go (l - 1) []
   end
-let hex_of_bytes (l : n list) : string =
+let hex_of_bytes (l : n list) =
   if l = [] then "-" else begin
-    let buf = Buffer.create 64 in
-    List.iter (fun b -> Buffer.add_string buf (Printf.sprintf "%02x" (int_of_n b land 255))) l;
-    Buffer.contents buf
+    let buf = Stdlib.Buffer.create 64 in
+    Stdlib.List.iter (fun b -> Stdlib.Buffer.add_string buf (Stdlib.Printf.sprintf "%02x" (int_of_n b land 255))) l;
+    Stdlib.Buffer.contents buf
   end
-let split_ws (s : string) : string list =
-  List.filter (fun x -> x <> "") (String.split_on_char ' ' s)
-let iter_lines (f : string -> unit) : unit =
+let split_ws s =
+  Stdlib.List.filter (fun x -> x <> "") (Stdlib.String.split_on_char ' ' s)
+let iter_lines f : unit =
   (try while true do let l = input_line stdin in f l done with End_of_file -> ()); flush stdout
